@@ -70,4 +70,20 @@ def run(ctx: Ctx) -> None:
 
 
 def replay(data: dict[str, Any]) -> int:
-    return lc.replay_case(data, "parse")
+    """learn again with the recorded seeds and apply C05's three clauses: parses, no placeholder, exactly the input's names"""
+    inp = data["input"]
+    rep = pvlib.run_requests([{"op": "learn", "chunks": [inp["jobs_pv"]], "hash_seed": inp.get("hash_seed", 0),
+                               "uuid_seed": inp.get("uuid_seed", 0), "timeout": 60}])[0]
+    if "text" not in rep:
+        print("learner:", rep.get("error"), "(termination is C01's clause)")
+        return 0
+    print(rep["text"])
+    pr = pvlib.lean([{"op": "dg.parse", "text": rep["text"]}])[0]
+    if not pr.get("ok"):
+        print("not a well-formed activity diagram:", pr.get("error"))
+        return 1
+    want = sorted({e["eventType"] for j in inp["jobs_pv"] for e in j})
+    got = sorted(set(pr["names"]))
+    leaks = sorted({n for n in pr["names"] if PLACEHOLDER.search(n)})
+    print("names:", got, "input's:", want, "placeholders:", leaks)
+    return 1 if (leaks or got != want) else 0
